@@ -72,6 +72,20 @@ class Inst:
         return hash(('inst', id(self.cls)))
 
 
+class TokStr(str):
+    """A character token: a real string (plasTeX tokens are str subclasses) with known attributes."""
+    def __new__(cls, text, **attrs):
+        o = str.__new__(cls, text)
+        o._attrs = attrs
+        return o
+
+    def __deepcopy__(self, memo):
+        return self
+
+    def __repr__(self):
+        return 'Tok(%s)' % str.__repr__(self)
+
+
 class Obj:
     """A mutable heap object with known attributes (identity matters; deep-copied
     with the state, aliasing preserved)."""
@@ -915,6 +929,8 @@ class Interp:
                 del cs.env[k]
         elif bound and 'self' in s.env and 'self' not in local:
             cs.env['self'] = s.env['self']
+        if bound and receiver is None and 'cls' in s.env and 'cls' not in local and node.args.args and node.args.args[0].arg == 'cls':
+            cs.env['cls'] = s.env['cls']
         self.emit(cs, ('call', self.canon(fname, s), _evargs(args, call.args), call.lineno))
         self.emit(cs, ('enter', self.canon(fname, s), call.lineno))
         saved_scope, saved_cache = self.scope, getattr(self, '_locals_cache', None)
@@ -1166,6 +1182,8 @@ class Interp:
         if isinstance(base, Inst) and isinstance(base.cls, M.ClassInfo) and m is not None:
             v = m.class_const(base.cls, attr)
             return TOP if M.is_unknown(v) else v
+        if isinstance(base, TokStr) and attr in base._attrs:
+            return base._attrs[attr]
         if isinstance(base, Obj):
             if attr in base.attrs:
                 return base.attrs[attr]
@@ -1481,6 +1499,8 @@ class Interp:
             return None
         if isinstance(op, (ast.In, ast.NotIn)):
             if isinstance(b, M._StringLetters):
+                if isinstance(a, str) and not isinstance(a, M._StringLetters) and len(a) == 1:
+                    return a.isalpha() if isinstance(op, ast.In) else not a.isalpha()
                 if isinstance(a, Sym) and 'letter' in a.attrs:
                     r = a.attrs['letter']
                     return r if isinstance(op, ast.In) else (None if r is None else not r)
